@@ -15,7 +15,7 @@ CLAIMS = {
              'reach a normal return; that Matrix._solver checks finiteness and a recomputed residual before returning a computed vector; that backend failures '
              'surface as MatrixError, lenient/step handlers are exact and bounded; that Matrix.solve stores only lhs[~J]=constrain[~J] / lhs[J]+=...; that backend '
              'solvers are reached only through the gate. These are necessary conditions of "certified solution or raise", quantified over all inputs because they '
-             'are path properties of the source; convergence, conditioning and independence of the initial guess are NOT decided. Also decided: sub-matrix/preconditioner caches are keyed on everything they depend on, and Topology.project never overwrites prescribed constraint values.',
+             'are path properties of the source; convergence, conditioning and independence of the initial guess are NOT decided. Also decided: sub-matrix/preconditioner caches are keyed on everything they depend on, Topology.project never overwrites prescribed constraint values, and in every iteration-method class the residual norm handed to System.solve is that of a residual assembled at the state handed out with it (typestate over enumerated paths; linear-model norms only behind the is_linear refusal).',
         note='Trusts: CPython ast; name-based identification of residual norms as the operands compared with tol/atol; IEEE semantics of NaN comparisons; '
              'the three gates are the only functions that hand an iterate to the user (confirmed by reading; R14.5 guards the linear side).',
         design='DESIGN.md section 2, C14'),
